@@ -71,7 +71,7 @@ class Contract:
 
 class LoopContract:
     def __init__(self, targets, invariant, modifies=(), decreases=None, index="_i", seq=None, heap_modifies=(),
-                 stepwise=(), match_assume=(), cell_types=None):
+                 stepwise=(), match_assume=(), cell_types=None, stepwise_for=("0",), stepwise_ctx=()):
         self.targets = targets          # loop target names (fingerprint)
         self.invariant = list(invariant)  # clauses over locals + index var
         self.modifies = list(modifies)  # local names havoc'd (in addition to syntactically assigned)
@@ -79,6 +79,8 @@ class LoopContract:
         self.decreases = decreases
         self.index = index
         self.stepwise = list(stepwise)
+        self.stepwise_for = list(stepwise_for)
+        self.stepwise_ctx = list(stepwise_ctx)
         self.match_assume = list(match_assume)
         self.cell_types = dict(cell_types or {})
 
